@@ -26,7 +26,7 @@ TEXT = {
             "begin or a REFUSED commit, of a session that may commit others before and after), abort_erases_partial (a session that "
             "never commits), failed_statement_erases (a failing statement of a transaction that goes on and commits, a failing "
             "autocommit statement or batch). Known findings with exact attribution: rolled-back UPDATEs stay visible (pinned test); "
-            "repaired by fix 64fa97f: a statement failing after its first row kept the rows processed so far; region finding: deleting and reinserting a unique key replaces the index "
+            "repaired by fix 30b3e5b: a statement failing after its first row kept the rows processed so far; region finding: deleting and reinserting a unique key replaces the index "
             "entry, so after a rollback the old row is no longer found through the index. Fixed by a fix: commit: a rolled-back DELETE "
             "left a stale mark that swallowed every later DELETE of the row.",
     "technique": "Lean 4 refinement proof + differential correspondence with the real sessions",
